@@ -557,7 +557,11 @@ func (r *runner) run(kind string, models []*Model, note string) {
 		cat0, xerr := execAll(newCatalog(), cstmts)
 		if i == 0 {
 			// the creation script of the first version is judged; the later ones are only the base of their delta
-			judgeCreate(c, v.m, cstmts, cat0, xerr, rp)
+			if kind != "create-unorderable" {
+				// reference cycles / dangling references are outside the property (and C20's business): such cases
+				// only tie the model's placement rule and the two interpreters to the code
+				judgeCreate(c, v.m, cstmts, cat0, xerr, rp)
+			}
 			c.Hist(fmt.Sprintf("tables:%d", len(v.m.Tables)))
 			c.Hist(fmt.Sprintf("files:%d", v.m.NFiles))
 			if sameLineTables(v.m) {
@@ -677,7 +681,7 @@ func nontrivial(kind string, ms []*Model) bool {
 			}
 		}
 	}
-	if kind == "create" {
+	if kind == "create" || kind == "create-unorderable" {
 		return refs > 0 || m.NFiles > 1
 	}
 	for i := 0; i+1 < len(ms); i++ {
